@@ -6,7 +6,7 @@ import ast
 from typing import List, Optional, Set, Tuple
 
 from ..cfg import CFG
-from ..model import dotted, Func, own_nodes, unparse
+from ..model import AnalysisError, dotted, Func, own_nodes, unparse
 from ..pipeline import Pipeline
 from ..util import assignments_to, calls, const_str, names_in
 from ..values import texts
@@ -27,7 +27,21 @@ ASSUMPTIONS = [
 
 SINGLE = "synrbl.SynMCSImputer.SubStructure.mcs_process.single_mcs"
 SAFE = "synrbl.SynMCSImputer.SubStructure.mcs_process.single_mcs_safe"
-PAIR = "synrbl.SynMCSImputer.MissingGraph.find_graph_dict.find_single_graph_parallel.<locals>.process_single_pair"
+FSG = "synrbl.SynMCSImputer.MissingGraph.find_graph_dict.find_single_graph_parallel"
+
+
+def pair_job(ctx) -> Func:
+    """the per-pair job of the missing-fragment analysis: the function handed to `delayed(..)` inside
+    find_single_graph_parallel (a closure on the pinned tree; a module-level function is as good)"""
+    host = ctx.prog.func(FSG)
+    for c in [n for n in own_nodes(host.node) if isinstance(n, ast.Call)]:
+        if isinstance(c.func, ast.Name) and c.func.id == "delayed" and c.args:
+            t = ctx.res.resolve_value(c.args[0], host)
+            if t and t[0] == "func" and t[1] in ctx.prog.functions:
+                return ctx.prog.functions[t[1]]
+            if isinstance(c.args[0], ast.Name) and c.args[0].id in host.nested:
+                return host.nested[c.args[0].id]
+    raise AnalysisError("find_single_graph_parallel no longer hands a job function to delayed(..)")
 RUN = "synrbl.SynMCSImputer.mcs_based_method.MCSBasedMethod.run"
 IMPUTE = "synrbl.SynMCSImputer.mcs_based_method.impute_reaction"
 
@@ -78,15 +92,24 @@ def _issue_store(ctx, h: ast.ExceptHandler, f: Func, issue_names: Set[str]) -> O
     return None
 
 
-def _nonempty_text(e: ast.AST) -> bool:
+def _nonempty_text(e: ast.AST, f: Optional[Func] = None) -> bool:
+    if isinstance(e, (ast.Name, ast.Attribute)) and f is not None:
+        # a module-level constant
+        from ..constfold import Unfoldable, fold_in
+
+        try:
+            v = fold_in(f, e)
+        except Unfoldable:
+            return False
+        return isinstance(v, str) and v.strip() != ""
     if isinstance(e, ast.Constant):
         return isinstance(e.value, str) and e.value.strip() != ""
     if isinstance(e, ast.JoinedStr):
         return any(isinstance(v, ast.Constant) and str(v.value).strip() for v in e.values)
     if isinstance(e, ast.Call) and isinstance(e.func, ast.Attribute) and e.func.attr == "format":
-        return _nonempty_text(e.func.value)
+        return _nonempty_text(e.func.value, f)
     if isinstance(e, ast.BinOp) and isinstance(e.op, ast.Add):
-        return _nonempty_text(e.left) or _nonempty_text(e.right)
+        return _nonempty_text(e.left, f) or _nonempty_text(e.right, f)
     return False
 
 
@@ -100,7 +123,7 @@ def check(ctx) -> None:
     jobs = [
         (prog.func(SINGLE), {"issue_col", "issue"}),
         (prog.func(SAFE), {"issue_col", "issue"}),
-        (prog.func(PAIR), {"issue"}),
+        (pair_job(ctx), {"issue"}),
         (prog.func(RUN), {"issue_col"}),
     ]
     for f, issue_names in jobs:
@@ -137,7 +160,7 @@ def check(ctx) -> None:
             for h in t.handlers:
                 reraises = any(isinstance(x, ast.Raise) for x in ast.walk(h))
                 st = _issue_store(ctx, h, f, issue_names)
-                text_ok = st is not None and _nonempty_text(st.value) or (st is not None and isinstance(st.value, ast.Call) and getattr(st.value.func, "id", "") == "str")
+                text_ok = st is not None and _nonempty_text(st.value, f) or (st is not None and isinstance(st.value, ast.Call) and getattr(st.value.func, "id", "") == "str")
                 # writes in the handler: only the issue of the local record
                 others = [x for x in ast.walk(h) if isinstance(x, ast.Assign) and x is not st and any(isinstance(tg, ast.Subscript) for tg in x.targets)]
                 ok1 = not reraises
